@@ -86,6 +86,62 @@ def run(ctx):
             else:
                 ctx.ok(R_cur, {"fn": f.path, "cursor": name})
 
+    # version gates: every (chunk, version) the builder accepts is a (chunk, version) the root parser reads
+    from .. import enumpred
+    R_gate = ctx.rule("C14.version-gates-agree", "for each version-specific chunk, the set of versions the builder's compatibility table accepts is contained in the set of versions under which parse_root_adt reads that chunk", floor=7)
+    variants = enumpred.variants_of(adt, "version::AdtVersion")
+    vf = adt.fns.get("wow_adt::builder::validation::validate_version_chunk_compatibility")
+    pf = adt.fns.get("wow_adt::root_parser::parse_root_adt")
+    if not variants or vf is None or pf is None or not vf.hir or not pf.hir:
+        ctx.bad(R_gate, "version-gates|missing", "-", "AdtVersion, validate_version_chunk_compatibility or parse_root_adt not found", "anchor gone")
+    else:
+        ctx.saw_fn(vf)
+        ctx.saw_fn(pf)
+        vparam = hirq.pat_binds(vf.hir["params"][0])[0]
+        allowed = {}
+        for m in hirq.find(vf.hir["body"], "match"):
+            for arm in m["arms"]:
+                pats = arm["pat"]["subs"] if arm["pat"].get("k") == "or" else [arm["pat"]]
+                ids = [p_["res"]["def"].split("::")[-1] for p_ in pats if p_.get("k") == "path" and "ChunkId::" in p_["res"].get("def", "")]
+                if not ids:
+                    continue
+                ok_set = set(variants)
+                for n in hirq.find(arm["body"], "if"):
+                    if any(x.get("k") == "ret" for x in hirq.walk(n["then"])):
+                        try:
+                            ok_set -= enumpred.true_set(n["c"], vparam, variants)
+                        except enumpred.Opaque:
+                            pass
+                for i_ in ids:
+                    allowed[i_] = ok_set
+            break
+        parsed = {}
+        pver = next((b_ for p_ in pf.hir["params"] for b_ in hirq.pat_binds(p_) if "version" in b_), "version")
+        from .c07 import enclosing_if_conditions
+        for c in hirq.walk(pf.hir["body"]):
+            if c.get("k") == "mcall" and c["m"] in ("get_chunks", "get_chunk", "has_chunk") and c.get("args"):
+                cid = hirq.render(c["args"][0]).split("::")[-1]
+                vs = set(variants)
+                for side, cd in enclosing_if_conditions(pf.hir["body"], c):
+                    if pver not in hirq.render(cd):
+                        continue
+                    try:
+                        ts = enumpred.true_set(cd, pver, variants)
+                    except enumpred.Opaque:
+                        continue
+                    vs &= ts if side == "then" else (set(variants) - ts)
+                parsed[cid] = parsed.get(cid, set()) | vs
+        for cid, aset in sorted(allowed.items()):
+            if cid not in parsed:
+                ctx.note_unarmed(R_gate, cid, "chunk not read through discovery.get_chunks in parse_root_adt")
+                continue
+            missing = [v for v in variants if v in aset and v not in parsed[cid]]
+            if missing:
+                ctx.bad(R_gate, "version-gate|%s" % cid, pf.where, "the builder writes %s for %s but parse_root_adt reads it only for %s" % (cid, sorted(aset, key=variants.index), sorted(parsed[cid], key=variants.index)),
+                        "a tile built for %s with this chunk loses it on the first parse (and the next rebuild drops it from the file)" % missing[0])
+            else:
+                ctx.ok(R_gate, {"chunk": cid, "builder_versions": sorted(aset, key=variants.index), "parser_versions": sorted(parsed[cid], key=variants.index)})
+
     global POS_TY
     POS_TY = lambda n: adt.ty(n.get("t")) if n is not None and n.get("t") is not None else ""
     fns = {norm(f.path): f for f in adt.fn_list if f.kind != "Closure" and f.hir}
